@@ -120,6 +120,18 @@ def run(ctx):
             tree = build(shape)
             root = outcome(tree.hash)
             mroot = outcome(build_m(shape).hash)
+            # the same leaf and branch objects are then put into other trees (another shape over the same leaves; the whole tree and its
+            # left subtree as parts of larger trees): what `tree` says about its own leaves must not depend on that
+            decoys = []
+            if n >= 2:
+                for _ in range(4):
+                    shape2 = rand_shape(rng, n)
+                    if shape2 != shape:
+                        break
+                decoys.append(outcome(lambda: build(shape2).hash()))
+                decoys.append(outcome(lambda: TR.TapBranch(TR.TapLeaf(Script([0x51]), 0xC0), tree).hash()))
+                if shape[0] != "L" and hasattr(tree, "left"):
+                    decoys.append(outcome(lambda: TR.TapBranch(tree.left, TR.TapLeaf(Script([0x52]), 0xC0)).hash()))
             d2 = rng.randrange(1, N256)
             pk2 = PrivateKey(d2)
             for keyno, (d, pk) in enumerate([(d, pk), (d2, pk2)]):      # the same tree object under two internal keys
